@@ -82,6 +82,16 @@ def setup():
             raise HTTPException(401, realm="Zone <z> \"q\"")
         abort(code)
 
+    @app.route("/rx/<code:int>/<rest:re:.*>", method=state.METHOD_ALL)
+    def rx(req, code, rest):
+        """every error page for a client-chosen path"""
+        from poorwsgi.response import HTTPException
+        if code == 500:
+            raise RuntimeError(req.environ.get("verif.msg", "boom"))
+        if code == 401:
+            raise HTTPException(401, realm="Zone")
+        abort(code)
+
     @app.route("/only-post", method=state.METHOD_POST)
     def only_post(req):
         return "x"
@@ -118,6 +128,13 @@ def request(page, place, payload, debug):
     if place == "path":
         if page in ("404",):
             path = "/nothing/" + payload
+        elif page in ("400", "401", "403", "405", "500", "501"):
+            # the same page for a path the client chose (regular-expression route)
+            path = "/rx/%s/%s" % ("418" if page == "501" else page, payload)
+            if page == "400":
+                env.update(REQUEST_METHOD="GET")
+                env.pop("CONTENT_TYPE")
+                env.pop("CONTENT_LENGTH")
         elif page == "listing":
             path = "/plain/"       # the listing shows the URI: payload goes to the query instead
             tail = payload
